@@ -86,6 +86,11 @@ func (k *KittyImage) Draw(win Window) {
 	if atomicLoad(&k.encoding) {
 		return
 	}
+	if w, h := win.Size(); k.w > w || k.h > h {
+		// The image will not be drawn if it is larger than the window:
+		// the terminal would paint it over the neighbouring cells
+		return
+	}
 	col, row := win.Origin()
 	log.Trace("placing kitty image at cell %d,%d", col, row)
 	// the pid is a 32 bit number where the high 16bits are the width and
